@@ -21,9 +21,13 @@ The theorems are about `Uniflow.Codec.{encode, decode, generic, canon}` (Model/C
 
 Proved: `roundtrip` (unrestricted), `roundtrip_struct`, `no_panic`, `roundtrip_closed` (`v' = canon v`),
 `spec_roundtrip`, `generic_reencodes`, `encode_is_document`, the number / base64 laws of the JSON path and
-`roundtrip_json_partial` (closed types without a struct in a statically typed position).
-Stated and **not proved**: `roundtrip_json_full` (structs and `any` through JSON – covered by the correspondence
-check, which sends every `js` line within the guards to the model, and by the oracle).
+`roundtrip_json_partial`: the JSON round trip for every well-formed type – structs in statically typed positions
+(the `phase1` / `phase2` lemmas generalised over the JSON value map, Proofs/CodecStructG.lean) and `any` included –
+under the guards `jsonOK` and the static-type condition `jtOK` (an omitempty field whose type contains `any` is an
+`any`, pointer, slice or map).
+Stated and **not proved**: `roundtrip_json_full` without `jtOK` (omitempty arrays / structs with an open component;
+covered by the correspondence check, which sends every `js` line within the guards to the model, and by the oracle).
+Float32 values are outside the JSON statement (excluded by `jsonOK`).
 
 All statements quantify over every well-formed type (`GoType.wf`) and every value of it (`hasType`), any nesting
 depth and size: scalars of every width, `[]byte`, `[n]byte`, time, duration, uuid, pointers (to pointers), slices,
@@ -33,6 +37,7 @@ holding a value of any well-formed type.
 import Uniflow.Proofs.CodecCanon
 import Uniflow.Proofs.CodecSpec
 import Uniflow.Proofs.CodecJSON
+import Uniflow.Proofs.CodecJSONFull
 
 open Uniflow.Value Uniflow.Codec
 
@@ -172,12 +177,12 @@ def C16.roundtrip_json_full : Prop :=
     ∃ j, jsonForm (encode t v) = some j ∧
       ∃ v', decode t j = .ok v' ∧ jsonForm (encode t v') = some j ∧ (closed t = true → v' = canon t v)
 
-/-- **C16 through JSON, partial.** For closed types without a struct in a statically typed position (every
+/-- (first delivery, now a special case of `roundtrip_json_partial`) For closed types without a struct in a statically typed position (every
 integer width, float64, string, bool, `[]byte`, `[n]byte`, time, duration, uuid, pointers, slices, arrays, maps):
 the JSON form exists, decodes to exactly the normal form `canon t v`, and that value carries the same JSON document.
 Missing for the full statement: struct types (the `phase1` / `phase2` lemmas are stated for the direct document) and
 `any`. -/
-theorem C16.roundtrip_json_partial (t : GoType) (v : GoVal) (h : HasType v t) (g : jsonOK t v = true)
+theorem C16.roundtrip_json_closed_nostruct (t : GoType) (v : GoVal) (h : HasType v t) (g : jsonOK t v = true)
     (hc : closed t = true) (hs : noStruct t = true) :
     ∃ j, jsonForm (encode t v) = some j ∧ decode t j = .ok (canon t v) ∧
       jsonForm (encode t (canon t v)) = some j := by
@@ -185,9 +190,46 @@ theorem C16.roundtrip_json_partial (t : GoType) (v : GoVal) (h : HasType v t) (g
   exact ⟨j, hj, hd, by rw [C16.canon_encodes_same t v h hc]; exact hj⟩
 
 /-- the guards are satisfiable by a non-trivial value: a map of lists of pointers to 2^53, −2^53, a byte array -/
-theorem C16.roundtrip_json_partial_nonvacuous :
+theorem C16.roundtrip_json_closed_nostruct_nonvacuous :
     let t : GoType := .map (.slice (.ptr (.int .w64)))
     let v : GoVal := .map (.cons [97] (.slice (.cons (.ptr (.int 9007199254740992)) (.cons .ptrNil
       (.cons (.ptr (.int (-9007199254740992))) .nil)))) .nil)
     HasType v t ∧ jsonOK t v = true ∧ closed t = true ∧ noStruct t = true := by
+  decide
+
+
+/-- **C16 through JSON, partial – every well-formed type, structs in typed positions and `any` included.**
+Under the guards `jsonOK` (integers and millisecond counts within ±2^53, finite float64, **no float32** – its JSON
+text is the shortest decimal for float32, whose float64 reading is not modelled –, valid UTF-8 in strings, map keys and
+aliases) the document has a JSON form `j`, decoding `j` into the type succeeds, the decoded value carries the same
+JSON document, and for closed types it is the normal form `canon t v`.
+
+Missing for `roundtrip_json_full`: the static-type condition `jtOK t` – an omitempty field whose type contains `any`
+must itself be an `any`, a pointer, a slice or a map (the usual `Opts map[string]any \`json:",omitempty"\``), not an
+array or struct with an open component. For those the proof lacks "encodes like the zero value is preserved by the
+JSON round trip" (`Equal` on lists / maps of re-encoded open values); the correspondence check covers them. -/
+theorem C16.roundtrip_json_partial (t : GoType) (v : GoVal) (h : HasType v t) (g : jsonOK t v = true)
+    (hj : jtOK t = true) :
+    ∃ j, jsonForm (encode t v) = some j ∧
+      ∃ v', decode t j = .ok v' ∧ jsonForm (encode t v') = some j ∧ (closed t = true → v' = canon t v) := by
+  obtain ⟨w, d1, d2, d3, d4, _⟩ := rj v t h.1 h.2 g hj
+  have ok := okDoc_spec (jd_enc v t h.2 g)
+  exact ⟨jd (encode t v), ok.1, w, d1, by rw [(okDoc_spec d3).1, d2], d4⟩
+
+/-- for a type that meets `jtOK` the full statement holds -/
+theorem C16.roundtrip_json_of_jtOK : (∀ t, jtOK t = true) → C16.roundtrip_json_full :=
+  fun hall t v h g => C16.roundtrip_json_partial t v h g (hall t)
+
+/-- non-vacuity: a struct with an inline struct, an omitempty `any` holding a list with a null and an int, an
+omitempty closed struct, an inline `map[string]any` with a nested map, a pointer to 2^53 and a `[]byte` -/
+theorem C16.roundtrip_json_partial_nonvacuous :
+    let t : GoType := .struct (.cons .inline [] (.struct (.cons .named [105] .str (.cons .omit [110] (.ptr (.int .w64)) .nil)))
+      (.cons .omit [111] .any (.cons .omit [115] (.struct (.cons .named [120] .dur .nil))
+      (.cons .inline [] (.map .any) (.cons .named [98] .bytes .nil)))))
+    let v : GoVal := .struct (.cons (.struct (.cons (.str [97]) (.cons (.ptr (.int 9007199254740992)) .nil)))
+      (.cons (.any (.slice .any) (.slice (.cons .anyNil (.cons (.any (.int .w8) (.int (-3))) .nil))))
+      (.cons (.struct (.cons (.dur 1500000000) .nil))
+      (.cons (.map (.cons [126] (.any (.map .str) (.map (.cons [107] (.str [118]) .nil))) .nil))
+      (.cons (.bytes [1, 2, 255]) .nil)))))
+    HasType v t ∧ jsonOK t v = true ∧ jtOK t = true := by
   decide
